@@ -58,6 +58,10 @@ def _clean(ex, s):
     n = s.count('Box<dyn CryptoResolver + Send>')
     ex.counts['R11-send'] = ex.counts.get('R11-send', 0) + n
     s = s.replace('Box<dyn CryptoResolver + Send>', 'Box<dyn CryptoResolver>')
+    # R18: Verus leaves the error conversion done by `?` unspecified unless it is the identity; make the
+    # (language-defined) From::from explicit so that `?` converts Error -> Error:  x.ok_or(K::V)?  ->  x.ok_or(Error::from(K::V))?
+    s = _sub(ex, 'R18', r'\.ok_or\(((?:StateProblem|InitStage|Prerequisite|PatternProblem)::\w+)\)\?',
+             r'.ok_or(crate::error::Error::from(\1))?', s)
     # R8 visibility
     s = _sub(ex, 'R8', r'pub\(crate\)', 'pub', s)
     return s
@@ -101,9 +105,9 @@ pub mod vshim {
 use vstd::prelude::*;
 verus! {
 // R17 shims (trusted, one line each): the UTF-8 bytes of a &str
-pub uninterp spec fn str_bytes_spec(s: &str) -> Seq<u8>;
-#[verifier::external_body] pub fn str_len(s: &str) -> (r: usize) ensures r == str_bytes_spec(s).len() { s.len() }
-#[verifier::external_body] pub fn str_bytes(s: &str) -> (r: &[u8]) ensures r@ == str_bytes_spec(s) { s.as_bytes() }
+pub uninterp spec fn utf8(cs: Seq<char>) -> Seq<u8>;
+#[verifier::external_body] pub fn str_len(s: &str) -> (r: usize) ensures r == utf8(s@).len() { s.len() }
+#[verifier::external_body] pub fn str_bytes(s: &str) -> (r: &[u8]) ensures r@ == utf8(s@) { s.as_bytes() }
 }
 }
 pub use crate::error::Error;
@@ -226,6 +230,7 @@ impl CryptoResolver for DefaultResolver {
         'R2: #[cfg(test)] modules, inner doc comments/attributes, impl Display/Debug/Error, impl PartialEq for Keypair (subtle)',
         'R12: every FromStr::from_str, HandshakeChoice::parse_pattern_and_modifier, HandshakeChoice::is_fallback are #[verifier::external] (str APIs): NOT verified',
         'R17: in SymmetricState::initialize, handshake_name.len()/.as_bytes() go through two trusted one-line shims (vshim::str_len/str_bytes)',
+        'R18: `x.ok_or(K::V)?` is rewritten to `x.ok_or(Error::from(K::V))?` (the From::from that `?` applies is made explicit; Verus does not specify non-identity `?` conversions)',
         'R5: supertraits CryptoRng+RngCore of trait Random dropped (foreign crate)',
         'features hfs, risky-raw-split, nightly, no_std are compiled out (cfg)',
         'resolvers/default.rs and resolvers/ring.rs are not part of the core unit (separate wrapper unit, R16)',
